@@ -44,6 +44,9 @@ CHECKS.update({
  "C09": ("exploration","runtime round-trip monitor on the real codec (DecodeLn/MarshalText/MarshalMap) over generated and hand-shaped lines; dump comparison of RocksDB compiled from original vs preprocessed files",
          "(a) every line of generated files plus hand-shaped lines of all 17 types (escaped separators, wildcard owners, explicit zero fields, subnet and range-point forms) is parsed, printed, parsed again; compiled keys/values and the second print must agree, under CDB-style and RocksDB-style codecs with v1/v2 keys. (b) generated files are preprocessed with the dnsrocks-preproc codec settings and both versions compiled (v1, v2); the raw dumps must be equal multisets.",
          "Lines the codec rejects are outside the property. Two open findings (explicit SOA serial 0; IPv4-mapped ipv6hint) are suppressed by predicate.","4/C09"),
+ "C07": ("exploration","runtime oracle: raw dump of the compiled CDB/RocksDB vs the sequential line codec's records, across 11 compiler settings; watchdog + structural deadlock witness; race-detector child in the thorough tier",
+         "Compiles files of ~50/5 000/70 000 records (hot keys across bucket cuts and batch boundaries) with the real compilers under CDB workers 1/4/16, RocksDB builder 1/4/16 CPUs, batches 7/1000/default x parallelism 1/4/0 and v1/v2 keys, dumps the result with the repository's own iterator / a raw CDB walk and compares key -> multiset of values with the sequential codec output; a rejected line must fail every setting; a compile that does not return is a violation only with two identical all-blocked goroutine dumps.",
+         "The reference is the repository's own line codec, as the statement defines it. Order of values under one key is not compared.","4/C07"),
 })
 BUILT = set(CHECKS)
 ALL = [json.loads(l)["id"] for l in open("properties.jsonl")]
